@@ -382,7 +382,8 @@ std::string show_script(script const &s)
 
 // ------------------------------------------------------------ widen direction
 // which = 0: widen_locale, 1: to_std_wstring_locale
-void widen_case(entry &e, int which, std::string const &s, std::locale const &loc, std::string const &descr, bool assert_reference)
+// reference: 2 = verdict, 1 = information only, 0 = not compared
+void widen_case(entry &e, int which, std::string const &s, std::locale const &loc, std::string const &descr, int reference)
 {
   if (!e.begin_text(show(s) + descr))
     return;
@@ -397,13 +398,16 @@ void widen_case(entry &e, int which, std::string const &s, std::locale const &lo
   });
   if (how == 0)
     vrt::count("documented_exception:widen_locale");
-  if (assert_reference && how >= 0)
+  if (reference == 2 && how >= 0)
   {
+    // widen_locale.hpp: "Converts _string to std::wstring using _locale. \\throw std::runtime_error If the conversion fails"
     VRT_CHECK((how == 1) == valid, e.name + (valid ? ":missing" : ":spurious"), "%s UTF-8, but %s", valid ? "valid" : "invalid or truncated",
               how == 1 ? "a string was returned" : "std::runtime_error was thrown");
     if (valid && how == 1)
       VRT_CHECK(r == want, e.name + ":wrong_value", "got %s want %s", show(r).c_str(), show(want).c_str());
   }
+  else if (reference == 1 && how >= 0)
+    C01_INFO((how == 1) == valid && (!valid || how != 1 || r == want), e.name + ":differs_from_reference");
 }
 
 void widen_shard(int which, int maxlen)
@@ -417,7 +421,7 @@ void widen_shard(int which, int maxlen)
     entry e(std::string(fn) + "[codecvt_utf8<wchar_t>]");
     std::locale const loc(std::locale::classic(), new std::codecvt_utf8<wchar_t>);
     for (auto const &s : inputs)
-      widen_case(e, which, s, loc, ", facet std::codecvt_utf8<wchar_t>", true);
+      widen_case(e, which, s, loc, ", facet std::codecvt_utf8<wchar_t>", 2);
   }
   entry e(std::string(fn) + "[scripted codecvt, max_length " + std::to_string(maxlen) + "]", nullptr);
   for (auto const &sc : scripts(maxlen))
@@ -426,14 +430,19 @@ void widen_shard(int which, int maxlen)
       if (vrt::out_of_time())
         return;
       std::locale const loc(std::locale::classic(), new scripted_codecvt(sc.a, sc.k, sc.maxlen));
-      // every answer of `normal` and `partial_short` is a correct conversion: the reference applies
-      widen_case(e, which, s, loc, show_script(sc), sc.a == answer::normal || sc.a == answer::partial_short);
+      // The reference is a verdict only for a facet that honours the codecvt contract in the way real facets do: every
+      // answer is the complete conversion and max_length() is truthful.  A `partial` although input and room were left
+      // (partial_short) or a max_length() of 1 for UTF-8 are things a consumer may legitimately treat as a failed
+      // conversion: information only.  All other scripts: totality and the exception type only.
+      int const reference = sc.a == answer::normal ? (maxlen >= 4 ? 2 : 1) : sc.a == answer::partial_short ? 1 : 0;
+      widen_case(e, which, s, loc, show_script(sc), reference);
     }
 }
 
 // ------------------------------------------------------------ narrow direction
 // which = 0: narrow_locale, 1: from_std_wstring_locale
-void narrow_case(entry &e, int which, std::wstring const &s, std::locale const &loc, std::string const &descr, int assert_reference)
+// reference: 2 = verdict, 1 = information only, 0 = not compared; only_valid: compared for encodable input only
+void narrow_case(entry &e, int which, std::wstring const &s, std::locale const &loc, std::string const &descr, int reference, bool only_valid)
 {
   if (!e.begin_text(show(s) + descr))
     return;
@@ -444,14 +453,18 @@ void narrow_case(entry &e, int which, std::wstring const &s, std::locale const &
   exact<wchar_t> const buf(s);
   guarded(e.name, [&] {
     fcppt::optional_std_string const r = which == 0 ? fcppt::narrow_locale(buf.view(), loc) : fcppt::from_std_wstring_locale(buf.view(), loc);
-    // assert_reference 2: both ways; 1: only for valid input (codecvt_utf8 is not strict about non-characters)
-    if (assert_reference == 2 || (assert_reference == 1 && valid))
+    if (only_valid && !valid) // codecvt_utf8 is not strict about non-characters
+      return;
+    if (reference == 2)
     {
+      // narrow_locale.hpp: "Converts _string to std::string using _locale", failure = empty optional
       VRT_CHECK(r.has_value() == valid, e.name + (valid ? ":missing" : ":spurious"), "%s input, has_value=%d", valid ? "encodable" : "not encodable",
                 (int)r.has_value());
       if (valid && r.has_value())
         VRT_CHECK(r.get_unsafe() == want, e.name + ":wrong_value", "got %s want %s", show(r.get_unsafe()).c_str(), show(want).c_str());
     }
+    else if (reference == 1)
+      C01_INFO(r.has_value() == valid && (!valid || !r.has_value() || r.get_unsafe() == want), e.name + ":differs_from_reference");
   });
 }
 
@@ -466,7 +479,7 @@ void narrow_shard(int which, int maxlen)
     entry e(std::string(fn) + "[codecvt_utf8<wchar_t>]");
     std::locale const loc(std::locale::classic(), new std::codecvt_utf8<wchar_t>);
     for (auto const &s : inputs)
-      narrow_case(e, which, s, loc, ", facet std::codecvt_utf8<wchar_t>", 1);
+      narrow_case(e, which, s, loc, ", facet std::codecvt_utf8<wchar_t>", 2, true);
   }
   entry e(std::string(fn) + "[scripted codecvt, max_length " + std::to_string(maxlen) + "]",
           maxlen < 4 ? "result not compared when max_length() understates the 4 bytes a character can need" : nullptr);
@@ -476,8 +489,9 @@ void narrow_shard(int which, int maxlen)
       if (vrt::out_of_time())
         return;
       std::locale const loc(std::locale::classic(), new scripted_codecvt(sc.a, sc.k, sc.maxlen));
-      bool const correct = (sc.a == answer::normal || sc.a == answer::partial_short) && maxlen >= 4;
-      narrow_case(e, which, s, loc, show_script(sc), correct ? 2 : 0);
+      // as in the widen direction: verdict only for complete conversions with a truthful max_length()
+      int const reference = sc.a == answer::normal ? (maxlen >= 4 ? 2 : 1) : sc.a == answer::partial_short ? 1 : 0;
+      narrow_case(e, which, s, loc, show_script(sc), reference, false);
     }
 }
 
@@ -604,7 +618,9 @@ template <class C, bool Front> void pop_throwing(char const *cname)
             VRT_CHECK(got == (Front ? s.front() : s.back()), e.name + ":wrong_value", "popped %d", got);
         }
         else if (how == 0)
-          VRT_CHECK(rest == s || rest == popped, e.name + ":container_corrupt", "after the exception the container is %s", show_seq(rest).c_str());
+          // which of the valid states the container is left in after the element type threw is not documented (memory errors
+          // are the sanitizer's business): information only
+          C01_INFO(rest == s || rest == popped, e.name + ":container_state_after_exception");
       }
       VRT_CHECK(cnt.live == base, e.name + ":instances", "%ld element objects leaked or destroyed twice", cnt.live - base);
     }
@@ -631,8 +647,9 @@ template <std::size_t N> void from_range_throwing()
               for (std::size_t i = 0; i < N; ++i)
                 VRT_CHECK(r.get_unsafe().get_unsafe(i).v == s[i], e.name + ":wrong_value", "element %zu", i);
           });
+          // whether elements are copied before the size is compared is an implementation detail: information only
           if (s.size() != N)
-            VRT_CHECK(how == 1, e.name + ":copied", "elements were copied although the size does not match");
+            C01_INFO(how == 1, e.name + ":copied_before_size_check");
         }
         VRT_CHECK(cnt.live == base, e.name + ":instances", "%ld element objects leaked or destroyed twice", cnt.live - base);
       }
@@ -787,9 +804,9 @@ void c01::register_env()
     for (int maxlen : {1, 4, 6})
     {
       vrt::shard(std::string(which ? "to_std_wstring_locale" : "widen_locale") + "/facets/max_length" + std::to_string(maxlen),
-                 [which, maxlen] { widen_shard(which, maxlen); }, 5);
+                 [which, maxlen] { widen_shard(which, maxlen); }, 10);
       vrt::shard(std::string(which ? "from_std_wstring_locale" : "narrow_locale") + "/facets/max_length" + std::to_string(maxlen),
-                 [which, maxlen] { narrow_shard(which, maxlen); }, 5);
+                 [which, maxlen] { narrow_shard(which, maxlen); }, 10);
     }
   vrt::shard("throwing_callbacks", [] {
     pop_throwing<std::vector<tracked>, false>("std::vector");
